@@ -29,6 +29,13 @@ RULE = (
     "sources are, in 2 cases of 5, taken from a pool shared by every factory call of the lab (the user hands the same "
     "`other` observable to every call); half of those make every argument source HOT (classes shared-argument-sources, "
     "hot-argument-source). "
+    "Check `to_future`: ops.to_future(default | asyncio.Future | concurrent.futures.Future constructor) - an operator object "
+    "whose applications return Futures - applied to 2-3 sources in 1-3 groups, each group either inside its own "
+    "asyncio.run() (a different running event loop per group) or with no running loop, optional cancel of the future; "
+    "compared between the worlds: whether the application raised, whether the future belongs to the group's loop, its "
+    "state after the virtual scheduler drained (result value / exception type+text / cancelled / pending), what "
+    "`await future` gives, exceptions leaving asyncio.run or the scheduler, source subscription intervals (classes "
+    "two-running-loops, loop-then-no-loop, results-in-two-environments). "
     "World ONE applies the single operator object returned by one factory call to every source; world FRESH makes a "
     "new factory call with identical arguments for every source; both run the same plan in separate labs. Oracle "
     "(differential): for every subscriber the probe tree (notifications incl. window/group inner subscribers, ticks, "
@@ -41,6 +48,7 @@ RULE = (
 ASSUMPTIONS = [
     "operator arguments that are user-owned stateful objects (an explicit Subject for multicast, an observer for do) are excluded, as the property's quantifier does",
     "auxiliary sources inside operator arguments are either created per factory call - then they are cold/synchronous (hot specs re-read as cold), because ONE shares a cold object that FRESH duplicates, which is behaviourally neutral only for cold sources - or pooled so that every factory call of both worlds receives the same objects, in which case hot ones are sound and generated",
+    "to_future is treated as in scope: it is an operator factory exported by reactivex.operators and used in pipe(); the statement's 'no ... other state leak from one application to another' applies although the application yields a Future; deterministic single-threaded asyncio only (asyncio.run per group, virtual-time sources), and for 'no running loop' groups a fresh non-running current loop is installed so process-global asyncio policy state cannot differ between the two worlds",
     "auto_connect is a ConnectableObservable method, not an operator function object; multicast(subject_factory=...) without a mapper is not a valid call (the implementation asserts the mapper); do(observer)/multicast(subject) take a user-owned stateful object (an Observer stops after its first terminal), which the statement's quantifier excludes - none of these is generated",
     "while_do/do_while use a condition whose counter is keyed by the source it is given (user state per source, identical in both worlds) instead of the grammar's per-factory counter; window_when/buffer_when use a single closing timeline so the grammar's call counter is irrelevant",
     "everything still subscribed at tick 150 is disposed in both worlds; runs are discarded as inconclusive and counted when the scheduler dequeues >=95 items without advancing its clock (spin bump, C29), the work budget is exceeded, the Python stack exceeds 400 frames or a RecursionError shows up in a trace, or the FRESH world lets an exception escape the scheduler",
@@ -457,10 +465,166 @@ def _compose_cases(draw):
     return {"kind": draw(st.sampled_from(COMPOSE_KINDS)), "chain": chain, "share_aux": share, "srcs": [draw(_prim) for _ in range(n)], "plan": draw(_plan(n, False)), "lazy": draw(st.booleans()), "inner": "now"}
 
 
+# ---------------------------------------------------------------------------------------
+# check 4: ops.to_future() - an operator object whose applications return Futures - reused across event loops
+
+
+def _tf_world(case, one):
+    """Applies to_future operator object(s) to logged sources, group by group.  A group runs either inside its own
+    asyncio.run() (a fresh running loop) or with no running loop (a fresh, non-running current loop is installed so the
+    process-global asyncio policy state left by earlier runs cannot matter).  Deterministic: no threads, virtual time."""
+    import asyncio
+    import concurrent.futures
+    import warnings
+
+    lab = Lab()
+    guard_all(lab)
+    n = len(case["srcs"])
+    prim = [lab.source(sp) for sp in case["srcs"]]
+
+    def factory():
+        c = case["ctor"]
+        ctor = None if c == "default" else asyncio.Future if c == "asyncio" else concurrent.futures.Future
+        return ops.to_future(ctor)
+
+    fs = [factory()] * n if one else [factory() for _ in range(n)]
+    rec = {}
+
+    def apply(i, cur_loop):
+        r = {}
+        try:
+            fut = fs[i](prim[i])
+        except Exception as e:  # noqa - the application itself failing is an observation
+            r["raised"] = [type(e).__name__, str(e)]
+            rec[i] = r
+            return None
+        r["own_loop"] = (fut.get_loop() is cur_loop) if hasattr(fut, "get_loop") else None
+        rec[i] = r
+        return fut
+
+    def settle(i, fut):
+        r = rec[i]
+        if fut is None:
+            return
+        if fut.cancelled():
+            r["state"] = "cancelled"
+        elif fut.done():
+            e = fut.exception()
+            r["state"] = ["error", type(e).__name__, str(e)] if e is not None else ["result", strip_obs_(lab.canon(fut.result()))]
+        else:
+            r["state"] = "pending"
+
+    def drain():
+        lab.run()
+        if lab.escaped is not None:
+            e, lab.escaped = lab.escaped, None
+            rec.setdefault("escaped", []).append([type(e).__name__, str(e)])
+
+    with warnings.catch_warnings():
+        warnings.simplefilter("ignore")
+        for g in case["groups"]:
+            idx = [i for i in g["apps"] if i < n and i not in rec]
+            if g["env"] == "loop":
+
+                async def main(idx=idx, g=g):
+                    loop = asyncio.get_running_loop()
+                    futs = [(i, apply(i, loop)) for i in idx]
+                    for i, f in futs:
+                        if f is not None and i in g.get("cancel", []):
+                            f.cancel()
+                    await asyncio.sleep(0)
+                    drain()
+                    await asyncio.sleep(0)
+                    for i, f in futs:
+                        settle(i, f)
+                        if f is not None and f.done() and not f.cancelled() and isinstance(f, asyncio.Future):
+                            try:
+                                rec[i]["awaited"] = ["result", strip_obs_(lab.canon(await f))]
+                            except Exception as e:  # noqa
+                                rec[i]["awaited"] = ["error", type(e).__name__, str(e)]
+
+                try:
+                    asyncio.run(main())
+                except Exception as e:  # noqa - e.g. 'Event loop is closed' surfacing at loop shutdown
+                    rec.setdefault("run_raised", []).append([type(e).__name__, str(e)])
+            else:
+                loop = asyncio.new_event_loop()
+                asyncio.set_event_loop(loop)
+                try:
+                    futs = [(i, apply(i, loop)) for i in idx]
+                    for i, f in futs:
+                        if f is not None and i in g.get("cancel", []):
+                            f.cancel()
+                    drain()
+                    for i, f in futs:
+                        settle(i, f)
+                finally:
+                    asyncio.set_event_loop(None)
+                    loop.close()
+    return lab, prim, rec
+
+
+def strip_obs_(c):
+    from vlib.difftools import strip_obs
+
+    return strip_obs(c)
+
+
+def _run_tofuture(case):
+    LF, PF, RF = _tf_world(case, False)
+    if LF.inconclusive:
+        return SKIP(LF.inconclusive)
+    LO, PO, RO = _tf_world(case, True)
+    if LO.inconclusive:
+        return SKIP(LO.inconclusive)
+    envs = []
+    for g in case["groups"]:
+        envs.append(g["env"])
+    cls = ["ctor:" + case["ctor"], "envs:" + ">".join(envs[:3])]
+    loops = sum(1 for e in envs if e == "loop")
+    if loops >= 2:
+        cls.append("two-running-loops")
+    if "loop" in envs and "none" in envs[envs.index("loop"):]:
+        cls.append("loop-then-no-loop")
+    done = [i for i, r in RF.items() if isinstance(i, int) and isinstance(r.get("state"), list) and r["state"][0] == "result"]
+    group_of = {}
+    for gi, g in enumerate(case["groups"]):
+        for i in g["apps"]:
+            group_of.setdefault(i, gi)
+    nontrivial = len({group_of[i] for i in done}) >= 2
+    if nontrivial:
+        cls.append("results-in-two-environments")
+    if json.dumps(RF, sort_keys=True, default=str) != json.dumps(RO, sort_keys=True, default=str):
+        keys = sorted(set(map(str, RF)) | set(map(str, RO)))
+        diff = [(k, RO.get(int(k) if k.isdigit() else k), RF.get(int(k) if k.isdigit() else k)) for k in keys]
+        diff = [d for d in diff if d[1] != d[2]]
+        return FAIL("future-outcome|to_future", f"one shared to_future operator object vs fresh operator per source: (key, shared, fresh) = {diff[:2]}; case={json.dumps(case)}", classes=cls)
+    for i, (a, b) in enumerate(zip(PO, PF)):
+        if sort_intervals(a.subs) != sort_intervals(b.subs):
+            return FAIL("source-subs|to_future", f"source #{i} subscription intervals: shared {a.subs} vs fresh {b.subs}; case={json.dumps(case)}", classes=cls)
+    return OK(nontrivial, cls)
+
+
+@st.composite
+def _tofuture_cases(draw):
+    n = draw(st.integers(2, 3))
+    srcs = [draw(s_src(("sync", "cold", "sync"), max_len=3, terminal=("C", "C", "C", "E", None))) for _ in range(n)]
+    order = draw(st.permutations(list(range(n))))
+    groups = []
+    k = 0
+    while k < n:
+        size = draw(st.integers(1, 2))
+        apps = list(order[k : k + size])
+        k += size
+        groups.append({"env": draw(st.sampled_from(["loop", "loop", "none"])), "apps": apps, "cancel": [i for i in apps if draw(st.integers(0, 5)) == 0]})
+    return {"ctor": draw(st.sampled_from(["default", "default", "asyncio", "concurrent"])), "srcs": srcs, "groups": groups}
+
+
 def checks(tier):
     # one check per operator form so that every form gets the same budget (a single sampled_from over the
     # table was measured to give some forms 2 cases and others 130)
     out = [Check("op." + name, _run_ops, strategy=_ops_cases(name), examples={"quick": 48, "thorough": 3200}, shards={"quick": 8, "thorough": 16}) for name in sorted(OPS)]
     out.append(Check("connectable", _run_conn, strategy=_conn_cases(), examples={"quick": 1600, "thorough": 16 * 6000}, shards={"quick": 8, "thorough": 16}))
+    out.append(Check("to_future", _run_tofuture, strategy=_tofuture_cases(), examples={"quick": 400, "thorough": 16 * 1500}, shards={"quick": 8, "thorough": 16}))
     out.append(Check("compose", _run_compose, strategy=_compose_cases(), examples={"quick": 1200, "thorough": 16 * 5000}, shards={"quick": 8, "thorough": 16}))
     return out
